@@ -18,6 +18,10 @@ mod watchdog;
 use mcx::Tier;
 
 fn main() {
+    mcx::guard_main(real_main);
+}
+
+fn real_main() {
     let args: Vec<String> = std::env::args().collect();
     if args.len() < 3 {
         eprintln!("usage: schemamc <C16|C17|C18|C20> <quick|thorough> | schemamc replay <file>");
